@@ -14,7 +14,7 @@ Rec == ndJsonDeserialize(IOEnv.TRACE)
 Table == Rec[1].alone            \* record: job id -> sequence of outputs
 VARIABLES l, rejected, cur, done, part, shared
 
-M == INSTANCE JaqConc WITH Threads <- 1..64, Jobs <- DOMAIN Table, Eval <- Table, MaxRuns <- 1000000
+M == INSTANCE JaqConc WITH Threads <- 1..64, Jobs <- DOMAIN Table, Eval <- Table, MaxRuns <- 1000000, Cache <- FALSE
 
 Init == l = 2 /\ rejected = 0 /\ M!ConcInit
 \* one recorded run = Start . Step^n . Finish of the specification, with the recorded outputs
